@@ -19,6 +19,12 @@ def run(repo, run, tier):
     pruning(repo, run, m)
     bracket(repo, run, m)
     ordering(repo, run)
+    # an event with a direction attribute is reported only for crossings in that direction ALONG THE INTEGRATION: the samples that classify a
+    # crossing as rising/falling must lie before/after the root in the direction of the step, or every compatible crossing of a backward run is dropped
+    from .c07 import sample_kinds
+    rid = run.rule("C08.5", "the samples that classify a crossing (rising / falling) are taken at root -/+ a SIGNED fraction of the step (t_next - t_prev): "
+                            "'before' and 'after' follow the direction of integration, so a directional event is not filtered out on backward runs", floor=4)
+    sample_kinds(repo, run, rid, "C08.5")
 
 
 def pruning(repo, run, m):
